@@ -39,7 +39,8 @@ def run_case(ctx, rng, idx):
     import hypergraphx as hgx
     from hypergraphx.generation import hy_mmsbm_sampling as hs
 
-    mode = ["initial", "initial", "sequences", "model"][idx % 4]
+    mode = ["initial", "initial", "sequences", "model", "initial", "deg-only", "sequences", "dim-only"][idx % 8]
+    exact_dyadic = mode == "initial" or rng.random() < 0.65  # False: dyadic interactions through the CLT approximation as well
     burn = rng.choice([0, 1, 10, 200])
     thin = rng.choice([0, 1, 10, 200])
     seed = rng.randrange(2**31)
@@ -74,7 +75,7 @@ def run_case(ctx, rng, idx):
     else:
         N = rng.randint(4, 9)
         node_labels = list(range(N))
-        if mode == "sequences":
+        if mode in ("sequences", "deg-only", "dim-only"):
             dim_seq = {}
             for s in rng.sample(range(2, min(5, N) + 1), rng.randint(1, min(3, N - 1))):
                 dim_seq[s] = rng.randint(1, 4)
@@ -99,14 +100,19 @@ def run_case(ctx, rng, idx):
                 deg[0] = total - total // 2
                 deg[1] = total // 2
             deg_seq = deg
-    rescale = mode == "sequences" and rng.random() < 0.3
+            # only one of the two sequences handed over: the sampler draws the other one from the model
+            if mode == "deg-only":
+                dim_seq = None
+            elif mode == "dim-only":
+                deg_seq = None
+    rescale = mode in ("sequences", "deg-only", "dim-only") and rng.random() < 0.3
     u, w = gen_params(rng, N)
     max_size = rng.choice([None, rng.randint(max(2, max((len(e) for e in (init_edges or [])), default=2), max(dim_seq or {2: 0})), N)])
 
     def wit(extra=None):
         return {"mode": mode, "N": N, "u": u.tolist() if N <= 12 else None, "w": w.tolist(), "max_hye_size": max_size, "burn_in": burn, "thinning": thin, "seed": seed,
                 "initial": None if init_edges is None else [sorted(e, key=repr) for e in init_edges] if len(init_edges) <= 30 else len(init_edges),
-                "deg_seq": None if deg_seq is None else deg_seq.tolist(), "dim_seq": dim_seq, "allow_rescaling": rescale, "extra": repr(extra)[:900]}
+                "deg_seq": None if deg_seq is None else deg_seq.tolist(), "dim_seq": dim_seq, "allow_rescaling": rescale, "exact_dyadic_sampling": exact_dyadic, "extra": repr(extra)[:900]}
 
     # ---- chain monitor ------------------------------------------------------------------------
     chain = {"steps": 0, "accepted": 0, "bad": None, "ref": None}
@@ -130,7 +136,8 @@ def run_case(ctx, rng, idx):
         return r
 
     def draw():
-        s = hs.HyMMSBMSampler(u=u.copy(), w=w.copy(), max_hye_size=max_size, burn_in_steps=burn, intermediate_steps=thin, seed=seed)
+        s = hs.HyMMSBMSampler(u=u.copy(), w=w.copy(), max_hye_size=max_size, burn_in_steps=burn, intermediate_steps=thin, seed=seed,
+                              **({} if exact_dyadic else {"exact_dyadic_sampling": False}))
         if mode == "initial":
             hh = hgx.Hypergraph([tuple(e) for e in init_edges])
             for n in node_labels:
@@ -138,6 +145,10 @@ def run_case(ctx, rng, idx):
             it = s.sample(initial_hyg=hh)
         elif mode == "sequences":
             it = s.sample(deg_seq=deg_seq.copy().astype(float), dim_seq=dict(dim_seq), allow_rescaling=rescale)
+        elif mode == "deg-only":
+            it = s.sample(deg_seq=deg_seq.copy().astype(float), allow_rescaling=rescale)
+        elif mode == "dim-only":
+            it = s.sample(dim_seq=dict(dim_seq), allow_rescaling=rescale)
         else:
             it = s.sample()
         out = []
@@ -184,11 +195,14 @@ def run_case(ctx, rng, idx):
     if mode == "initial":
         cond_deg = Counter(n for e in init_edges for n in e)
         cond_size = Counter(map(len, init_edges))
-    elif mode == "sequences":
-        cond_size = Counter(dim_seq)
-        if sampler.matching_sequences:
-            cond_deg = Counter({i: int(d) for i, d in enumerate(deg_seq)})
-        ctx.event("matching_sequences:" + str(sampler.matching_sequences))
+    elif mode in ("sequences", "deg-only", "dim-only"):
+        # the conditioning clauses are stated for "a degree AND a size sequence": with only one of them handed over
+        # the other is drawn by the sampler, and only the validity and reproducibility clauses are judged
+        if mode == "sequences":
+            cond_size = Counter(dim_seq)
+            if sampler.matching_sequences:
+                cond_deg = Counter({i: int(d) for i, d in enumerate(deg_seq)})
+        ctx.event(f"{mode}:matching_sequences:" + str(sampler.matching_sequences))
     obs_seq = []
     for j, g in enumerate(samples):
         E = [tuple(e) for e in g.get_edges()]
@@ -202,8 +216,8 @@ def run_case(ctx, rng, idx):
         ctx.check("C16:sample-valid", all(isinstance(x, (int, np.integer)) and x > 0 for x in W), f"C16:{mode}:weight-not-positive-integer", w2)
         ctx.check("C16:sample-valid", len({frozenset(e) for e in E}) == len(E) and all(len(set(e)) == len(e) for e in E), f"C16:{mode}:repeated-hyperedge-or-node", w2)
         ctx.check("C16:sample-valid", all(len(e) >= 2 for e in E), f"C16:{mode}:hyperedge-smaller-than-2", w2)
-        if mode == "model":
-            ctx.check("C16:sample-valid", all(len(e) <= Dmax for e in E), "C16:model:hyperedge-larger-than-max-size", w2)
+        if mode in ("model", "deg-only"):  # sizes drawn from the model: bounded by its maximum size
+            ctx.check("C16:sample-valid", all(len(e) <= Dmax for e in E), f"C16:{mode}:hyperedge-larger-than-max-size", w2)
         ctx.check("C16:sample-valid", set(n for e in E for n in e) <= set(node_labels) and set(g.get_nodes()) <= set(node_labels), f"C16:{mode}:unknown-node", w2)
         deg = Counter(n for e in E for n in e)
         size = Counter(map(len, E))
